@@ -30,6 +30,7 @@ _ADV_PATHS = [
     "p:é|".encode("utf-8"),
     "p:日本|".encode("utf-8"),
     b"p:a b|",
+    b"p:caf\xe9|",
     b"p:%7C|",
     b"p:#|",
 ]
@@ -159,6 +160,8 @@ def mutate(rng, lru):
     from .model import stems
 
     st = stems(lru)
+    if not st:
+        return lru.replace(b"|", b"") + b"x|"
     r = rng.random()
     if r < 0.3 and len(st) > 1:
         return b"".join(st[: rng.randint(1, len(st) - 1)])
